@@ -10,10 +10,11 @@ KEYS = [
     ("name", "KStr"), ("size", "KNum"), ("ext", "KStr"), ("path", "KStr"), ("dir", "KStr"),
     ("length(name)", "KNum"), ("uid", "KNum"), ("mode", "KStr"), ("is_dir", "KStr"),
     ("hardlinks", "KNum"), ("inode", "KNum"), ("blocks", "KNum"),
-    # integer-valued expressions over numeric columns (non-negative: a key that prints with a sign is finding F11)
+    # integer-valued expressions over numeric columns, some of them negative for some entries
     ("size + 1", "KNum"), ("size * 2", "KNum"), ("size % 1000", "KNum"), ("hardlinks + size", "KNum"), ("length(name) * 100", "KNum"),
+    ("size - 50", "KNum"), ("length(name) - 10", "KNum"),
 ]
-EXPR_KEYS = {"size + 1", "size * 2", "size % 1000", "hardlinks + size", "length(name) * 100"}
+EXPR_KEYS = {"size + 1", "size * 2", "size % 1000", "hardlinks + size", "length(name) * 100", "size - 50", "length(name) - 10"}
 
 COQ_HEADER = """From Coq Require Import List NArith ZArith Bool.
 From FS Require Import lib.Str lib.Dec model.TopN model.Criteria.
@@ -60,15 +61,7 @@ def gen_case(rng, idx):
     trav = rng.choice(["", "", "dfs", "bfs"])
     # select list: path first, then possibly some keys (so that positional spelling can be used)
     selected = ["path"] + [k for k, _ in keys if rng.random() < 0.5 and k != "path"]
-    # without a WHERE clause the lexer reads operators after FROM as text (finding F46): such a query can name an
-    # expression key only by its position in the select list
     must_pos = set()
-    if not where:
-        for k, _ in keys:
-            if k in EXPR_KEYS:
-                must_pos.add(k)
-                if k not in selected:
-                    selected.append(k)
     spell = []
     for (k, _), a in zip(keys, asc):
         if k in selected and (k in must_pos or rng.random() < 0.5):
@@ -85,7 +78,7 @@ def gen_case(rng, idx):
 
 def py_key(kind, v):
     if kind == "KNum":
-        return int(v) if v.isdigit() else 0
+        return int(v) if v.lstrip("-").isdigit() else 0
     return v
 
 
